@@ -10,7 +10,7 @@ use serde_json::{json, Value};
 
 const RULE: &str = "cells r = 0..29 from the independent encoder (every face/quintant, position classes) and, for >= 30% of the \
 cases, the cell found by lookup at a special point (poles, polar caps, dodecahedron vertices/edges/seams, antimeridian); \
-exhaustive over all cells of the low resolutions. Oracle: area of the reported boundary ring (64 subdivisions per edge; independent authalic conversion and fan integrator) == 4 pi / N(r) to 1e-4 relative; metadata: get_num_cells \
+exhaustive over all cells of the low resolutions; a further section takes the r = 24..27 cells lying on the radii at which the inverse projection changes numerical branch (bisection on the verif hook's branch signature). Oracle: area of the reported boundary ring (64 subdivisions per edge; independent authalic conversion and fan integrator) == 4 pi / N(r) to 1e-4 relative; metadata: get_num_cells \
 and cell_area against the harness's own N(r) and WGS84 authalic area. non-trivial = r >= 2 (curved edges); distinct by cell ID.";
 
 #[derive(Debug, Clone)]
@@ -91,6 +91,66 @@ pub fn check_cell_area(id: u64, c: &Cell, n: i32, label: &str, st: &mut Stats) -
     Ok(())
 }
 
+/// Cells of r = 24..27 that sit on a *switch-over* of the plane-to-sphere map (the radius, along a ray from a face
+/// centre, at which `inverse` changes numerical branch; found by bisection on the `verif` hook's branch signature,
+/// as in C16). A step between two branches that do not meet exactly changes the area of exactly those cells and of
+/// no others; the point classes of the main section never land there. Resolutions above 27 are left to the main
+/// section: below a cell size of ~5e-9 the map's own rounding noise eats into the 1e-4 tolerance (see C16).
+#[derive(Debug, Clone)]
+pub struct SwitchPick {
+    pub face: u8,
+    pub gamma: f64,
+    pub log_r1: f64,
+    pub log_r2: f64,
+    pub res: i32,
+}
+pub fn switch_json(p: &SwitchPick) -> Value {
+    json!({"face": p.face, "gamma": p.gamma, "log_r1": p.log_r1, "log_r2": p.log_r2, "res": p.res})
+}
+pub fn switch_from_json(v: &Value) -> Option<SwitchPick> {
+    Some(SwitchPick { face: v["face"].as_u64()? as u8, gamma: v["gamma"].as_f64()?, log_r1: v["log_r1"].as_f64()?, log_r2: v["log_r2"].as_f64()?, res: v["res"].as_i64()? as i32 })
+}
+fn inverse_signature(q: P2, face: u8) -> Result<(V3, u32), String> {
+    let v = api::inverse(q, face).map_err(|e| format!("inverse failed: {}", e))?;
+    Ok((v, a5::projections::polyhedral::verif_last_inverse_branches()))
+}
+pub fn check_switch_cell(p: &SwitchPick, st: &mut Stats) -> Result<(), String> {
+    let step36 = std::f64::consts::PI / 5.0;
+    // keep the ray away from the ten seams of the face, and the far end inside the face
+    let k = (p.gamma / step36).floor();
+    let within = (p.gamma / step36 - k).clamp(0.0, 1.0);
+    let g = (k + 0.08 + 0.84 * within) * step36;
+    let dir = [g.cos(), g.sin()];
+    let step72 = 2.0 * step36;
+    let rel = g - (g / step72).round() * step72;
+    let rho_max = (super::c15::R_EDGE - 0.01) / rel.cos();
+    let (mut lo, mut hi) = (rho_max * 10f64.powf(p.log_r1.min(p.log_r2)), rho_max * 10f64.powf(p.log_r1.max(p.log_r2)));
+    let at = |r: f64| [r * dir[0], r * dir[1]];
+    let (s_lo, s_hi) = (inverse_signature(at(lo), p.face)?.1, inverse_signature(at(hi), p.face)?.1);
+    if s_lo == s_hi {
+        st.hit("switch:no-switch-over-between-the-two-radii");
+        return Ok(());
+    }
+    for _ in 0..200 {
+        let mid = 0.5 * (lo + hi);
+        if !(mid > lo && mid < hi) {
+            break;
+        }
+        if inverse_signature(at(mid), p.face)?.1 == s_lo {
+            lo = mid;
+        } else {
+            hi = mid;
+        }
+    }
+    let (v, _) = inverse_signature(at(hi), p.face)?;
+    let (lon, lat) = lonlat_of_vec(v);
+    let id = a5::lonlat_to_cell(api::lonlat(lon, lat), p.res).map_err(|e| format!("lonlat_to_cell(({}, {}), {}) failed: {}", lon, lat, p.res, e))?;
+    let c = codec::decode(id).ok_or_else(|| format!("lonlat_to_cell returned non-canonical {:#x}", id))?;
+    st.hit(&format!("switch:{:#b}->{:#b}", s_lo, s_hi));
+    st.hit(&format!("switch:radius:1e{:+03}", hi.log10().floor() as i32));
+    check_cell_area(id, &c, 64, "inverse-branch-switch-over", st)
+}
+
 fn check_metadata(st: &mut Stats) -> Result<(), String> {
     let e2 = WGS84_F * (2.0 - WGS84_F);
     let e = e2.sqrt();
@@ -164,7 +224,22 @@ pub fn run(tier: Tier, seed: u64) -> Report {
         },
         pick_json,
     );
-    rep.absorb("cells", r);
+    if !rep.absorb("cells", r) {
+        return rep;
+    }
+    let r = run_pbt(
+        "switch-over-cells",
+        seed,
+        tier.pick(3_000, 100_000),
+        || {
+            (0u8..12, 0.0f64..std::f64::consts::TAU, -7.0f64..0.0, -7.0f64..0.0, 24i32..=27)
+                .prop_map(|(face, gamma, log_r1, log_r2, res)| SwitchPick { face, gamma, log_r1, log_r2, res })
+                .boxed()
+        },
+        check_switch_cell,
+        switch_json,
+    );
+    rep.absorb("switch-over-cells", r);
     let fq = rep.stats.hist.keys().filter(|k| k.starts_with("face-quintant:")).count();
     rep.extra.insert("face_quintant_pairs_hit_of_60".into(), json!(fq));
     rep
@@ -178,6 +253,8 @@ pub fn replay(section: &str, case: &Value) -> Option<Result<(), String>> {
         } else if section.starts_with("exhaustive-r") {
             let c = gen::cell_by_index(case["res"].as_i64().ok_or("bad case")? as i32, case["index"].as_u64().ok_or("bad case")?);
             check_cell_area(codec::encode(&c), &c, case["subdivisions"].as_i64().unwrap_or(64) as i32, "exhaustive", &mut st)
+        } else if section == "switch-over-cells" {
+            check_switch_cell(&switch_from_json(case).ok_or("bad case")?, &mut st)
         } else if section == "cells" {
             let p = pick_from_json(case).ok_or("bad case")?;
             let (id, c, label) = p.resolve()?;
